@@ -231,8 +231,9 @@ func delegatingBuilders(c *Ctx, pkg string) {
 func changedFields(ev *Evaluator, p *Path, obj *T) []string {
 	var out []string
 	s0 := ev.NewState()
-	var walk func(cur0, cur1 *T, depth int)
-	walk = func(cur0, cur1 *T, depth int) {
+	outer := namedOfPtr(obj.Typ)
+	var walk func(cur0, cur1 *T, depth int, prefix string)
+	walk = func(cur0, cur1 *T, depth int, prefix string) {
 		n := namedOfPtr(cur0.Typ)
 		if n == nil {
 			return
@@ -248,7 +249,7 @@ func changedFields(ev *Evaluator, p *Path, obj *T) []string {
 				if _, isStruct := pn.Underlying().(*types.Struct); isStruct {
 					a0, a1 := ev.faddr(cur0, n, i), ev.faddr(cur1, n, i)
 					a0.Typ, a1.Typ = types.NewPointer(pn), types.NewPointer(pn)
-					walk(a0, a1, depth+1)
+					walk(a0, a1, depth+1, prefix+f.Name()+".")
 					continue
 				}
 			}
@@ -257,16 +258,23 @@ func changedFields(ev *Evaluator, p *Path, obj *T) []string {
 			if f.Embedded() && depth == 0 {
 				if _, isPtr := f.Type().Underlying().(*types.Pointer); isPtr && a == b {
 					a.Typ = f.Type()
-					walk(a, b, depth+1)
+					walk(a, b, depth+1, "")
 					continue
 				}
 			}
 			if a != b {
+				// a leaf that occurs in several by-value parts of the builder is known by its qualified name there
+				if prefix != "" && outer != nil {
+					if cn, ok := toCanonical[outer.Obj().Pkg().Name()+"."+typeCanonName(outer.Obj())+"."+prefix+f.Name()]; ok {
+						out = append(out, cn)
+						continue
+					}
+				}
 				out = append(out, canonicalField(n.Obj().Pkg().Name()+"."+typeCanonName(n.Obj())+"."+f.Name()))
 			}
 		}
 	}
-	walk(obj, obj, 0)
+	walk(obj, obj, 0, "")
 	sort.Strings(out)
 	return out
 }
